@@ -131,7 +131,8 @@ SIM_SCENARIO(scen_c16, "c16", "C16", 6000000, 30000) {
             } else if (a.kind == 1) {
                 auto* ev = new sim::event; pend.push_back(ev);
                 int pts = a.points;
-                ar.enqueue([aid, pts, ev] { unit(aid, 0, pts); ev->signal(); });
+                // the enqueued task spawns nested work of no isolation scope: an isolated waiter must not pick it up
+                ar.enqueue([aid, pts, ev] { unit(aid, 0, pts); tbb::parallel_for(0, 6, [aid, pts](int) { unit(aid, 0, pts / 2); }, tbb::simple_partitioner()); ev->signal(); });
             } else {
                 ar.execute([&] {
                     tbb::task_group outer;
@@ -142,7 +143,7 @@ SIM_SCENARIO(scen_c16, "c16", "C16", 6000000, 30000) {
                         tbb::this_task_arena::isolate([&] {
                             world.iso_stack[f].push_back(region);
                             tbb::task_group inner;
-                            for (int i = 0; i < 3; ++i) inner.run([&, region] { unit(aid, region, a.points / 2); });
+                            for (int i = 0; i < 5; ++i) inner.run([&, region] { unit(aid, region, a.points); });
                             inner.wait();
                             world.iso_stack[f].pop_back();
                         });
